@@ -289,6 +289,15 @@ func c18Dial(o *Out, r *rand.Rand) {
 	}
 }
 
+func c18ErrKind(err error) string {
+	if err == nil {
+		return "nil"
+	} else if errors.Is(err, client.ErrBreakerOpen) || strings.Contains(err.Error(), "breaker open") {
+		return "open"
+	}
+	return "dial"
+}
+
 func c18DialCase(o *Out, th int, mode client.FailMode, retries int) {
 	{
 		window := 400 * time.Millisecond
@@ -303,14 +312,7 @@ func c18DialCase(o *Out, th int, mode client.FailMode, retries int) {
 		n := th + 4
 		for i := 0; i < n; i++ {
 			var reply int
-			err := xc.Call(context.Background(), "M", 1, &reply)
-			if err == nil {
-				errs = append(errs, "nil")
-			} else if errors.Is(err, client.ErrBreakerOpen) || strings.Contains(err.Error(), "breaker open") {
-				errs = append(errs, "open")
-			} else {
-				errs = append(errs, "dial")
-			}
+			errs = append(errs, c18ErrKind(xc.Call(context.Background(), "M", 1, &reply)))
 		}
 		took := time.Since(start)
 		dials := atomic.LoadInt64(&c18Dials)
@@ -318,7 +320,8 @@ func c18DialCase(o *Out, th int, mode client.FailMode, retries int) {
 		o.Count("dial.cases")
 		o.Count(fmt.Sprintf("dial.mode=%v", mode))
 		rp := map[string]any{"threshold": th, "calls": n, "dials": dials, "errors": errs, "fail_mode": fmt.Sprint(mode), "retries": retries}
-		if took < window/2 {
+		judged := took < window/2
+		if judged {
 			if dials != int64(th) {
 				o.Violate("c18.xclient.dials", fmt.Sprintf("threshold %d: %d consecutive failing calls inside the window caused %d dials (want exactly %d, then refusals)", th, n, dials, th), rp)
 			}
@@ -335,9 +338,26 @@ func c18DialCase(o *Out, th int, mode client.FailMode, retries int) {
 		time.Sleep(window + window/3)
 		before := atomic.LoadInt64(&c18Dials)
 		var reply int
-		_ = xc.Call(context.Background(), "M", 1, &reply)
+		lastErr := xc.Call(context.Background(), "M", 1, &reply)
 		if atomic.LoadInt64(&c18Dials) <= before { // (retrying modes may dial more than once)
 			o.Violate("c18.xclient.norecover", fmt.Sprintf("threshold %d: after the window elapsed the client did not dial again", th), rp)
+		}
+		// model tie (Dial.run, theorem dial_count): with one connection attempt per call (Failfast) the
+		// attempt-by-attempt verdicts and the number of dials are the model's; the model gets the same
+		// schedule in abstract time (n attempts inside one window, one after it)
+		if judged && mode == client.Failfast {
+			var steps []string
+			for i := 0; i < n; i++ {
+				steps = append(steps, fmt.Sprintf("%d:%d:0", i+1, i+1))
+			}
+			after := int64(window) * 2
+			steps = append(steps, fmt.Sprintf("%d:%d:0", after, after))
+			letters := ""
+			for _, e := range append(append([]string{}, errs...), c18ErrKind(lastErr)) {
+				letters += map[string]string{"nil": "K", "open": "O", "dial": "D"}[e]
+			}
+			o.Case(fmt.Sprintf("brk dial %d %d %s", th, int64(window), strings.Join(steps, ",")),
+				fmt.Sprintf("%s dials=%d", letters, atomic.LoadInt64(&c18Dials)), true)
 		}
 		xc.Close()
 	}
